@@ -3,6 +3,7 @@
 #include <cocls/generator.h>
 #include <cocls/async.h>
 #include <cocls/future.h>
+#include <string>
 #include <thread>
 #include <vector>
 
@@ -125,9 +126,32 @@ template <typename G> cocls::async<void> consume_coro(G &gen, const int *style, 
         } catch (const vs::TestError &e) { o.threw = true; o.code = e.code; }
     }
 }
+
+// ---- a value type whose move empties the source, yielded as an lvalue the body keeps using; access styles mixed per item
+cocls::generator<std::string> accumulating(int n) { std::string acc; for (int i = 0; i < n; i++) { acc += (char)('a' + i); co_yield acc; } }
+void string_mode() {
+    int n = 1 + dsim::choose(6); int style[8]; for (int &x : style) x = dsim::choose(5);
+    dsim::plan_note("string generator n=%d styles=", n); for (int i = 0; i < n; i++) dsim::plan_note("%d", style[i]);
+    auto gen = accumulating(n);
+    std::string expect;
+    for (int i = 0; i < n; i++) {
+        expect += (char)('a' + i);
+        std::string got;
+        switch (style[i]) {
+        case 0: if (!gen.next()) dsim::fail("C13.end", "string generator ended after %d of %d values", i, n); got = gen.value(); break;
+        case 1: { auto f = gen(); got = f.wait(); break; }
+        case 2: { auto f = gen(); if (!f.has_value()) dsim::fail("C13.end", "string generator ended early"); got = f.value(); break; }
+        case 3: { auto f = gen(); f.sync(); got = f.value(); if (gen.value() != expect) dsim::fail("C13.wrong_value", "item #%d read through value() after a future access is \"%s\", the body yielded \"%s\"", i, gen.value().c_str(), expect.c_str()); break; }
+        default: { cocls::future<std::string> f; f << [&] { return gen(); }; got = f.wait(); break; }
+        }
+        if (got != expect) dsim::fail("C13.wrong_value", "item #%d observed as \"%s\" (access style %d), the body yielded \"%s\"", i, got.c_str(), style[i], expect.c_str());
+    }
+    if (gen.next()) dsim::fail("C13.extra_value", "string generator yielded more than %d values", n);
+}
 }
 
 void dsim_scenario() {
+    if (dsim::choose(7) == 6) { string_mode(); return; }
     Script sc; S = &sc;
     sc.n = 1 + dsim::choose(8);
     int mode = dsim::choose(4);               // 0 normal code, mixed styles; 1 range-for; 2 coroutine consumer; 3 generator with argument (normal code)
